@@ -204,6 +204,33 @@ example : (canonicalize 0 (fun _ => ⟨6, -4⟩)).map (· 0) = some ⟨-3, 2⟩ 
 example : (canonicalize 0 (fun _ => ⟨0, -5⟩)).map (· 0) = some ⟨0, 1⟩ := by decide
 example : (canonicalize 0 (fun _ => ⟨3, 0⟩)).isNone = true := by decide
 
+/-- mpq_mul_2exp: exact multiplication by 2^n with a canonical result (the power of two is cancelled
+    against the denominator first), for dst = src and for distinct variables, every shift count. -/
+theorem mpq_mul_2exp_spec (dst src n : Nat) (h : Heap) (h1 : Canonical (h src)) :
+    (mul_2exp dst src n h dst).toRat = (h src).toRat * 2 ^ n ∧ Canonical (mul_2exp dst src n h dst) ∧
+    ∀ j, j ≠ dst → mul_2exp dst src n h j = h j := by
+  rw [mul_2exp_eq]
+  refine ⟨?_, ?_, fun j hj => upd_other _ _ _ _ hj⟩ <;> rw [upd_self]
+  · exact (mul2expVal_spec h1 n).1
+  · exact (mul2expVal_spec h1 n).2
+
+/-- mpq_div_2exp: exact division by 2^n with a canonical result (zero stays 0/1), for dst = src and for
+    distinct variables, every shift count. -/
+theorem mpq_div_2exp_spec (dst src n : Nat) (h : Heap) (h1 : Canonical (h src)) :
+    (div_2exp dst src n h dst).toRat = (h src).toRat / 2 ^ n ∧ Canonical (div_2exp dst src n h dst) ∧
+    ∀ j, j ≠ dst → div_2exp dst src n h j = h j := by
+  rw [div_2exp_eq]
+  refine ⟨?_, ?_, fun j hj => upd_other _ _ _ _ hj⟩ <;> rw [upd_self]
+  · exact (div2expVal_spec h1 n).1
+  · exact (div2expVal_spec h1 n).2
+
+-- non-vacuity: 1/2^128 * 2^64 in place (two low zero limbs, one skipped: the input of the md_2exp.c defect);
+-- 3/40 * 2^5 = 12/5 (partial cancellation); (3*2^70)/5 / 2^67 = 24/5 (limb skip then bit shift)
+example : mul_2exp 1 1 64 (fun _ => ⟨1, 2 ^ 128⟩) 1 = ⟨1, 2 ^ 64⟩ := by decide +kernel
+example : mul_2exp 0 1 5 (fun _ => ⟨3, 40⟩) 0 = ⟨12, 5⟩ := by decide +kernel
+example : div_2exp 1 1 67 (fun _ => ⟨3 * 2 ^ 70, 5⟩) 1 = ⟨24, 5⟩ := by decide +kernel
+example : div_2exp 0 1 9 (fun _ => ⟨0, 1⟩) 0 = ⟨0, 1⟩ := by decide
+
 /-- mpq_equal on canonical operands decides equality of the rational values. -/
 theorem mpq_equal_iff (op1 op2 : Nat) (h : Heap) (h1 : Canonical (h op1)) (h2 : Canonical (h op2)) :
     (equal op1 op2 h = 1 ↔ (h op1).toRat = (h op2).toRat) ∧
